@@ -91,6 +91,8 @@ inductive Damage where
   -- write phase: the first output cannot be put in place without any fault injection (its name is taken by a directory,
   -- or the temp name is too long): an I/O error in the first notedownSrc
   | outputBlocked
+  -- clean phase: the `[dir]` argument holds an unclosed `[`: Clean's filepath.Glob fails (ErrBadPattern) AFTER the writes (finding F_glob_dir)
+  | cleanGlobBad
   deriving DecidableEq, Repr
 
 /-- `outs`: the files the command line would write if the damage is not fatal for this sub-command;
@@ -107,5 +109,6 @@ def classify (cmd : Cmd) (d : Damage) (outs : List String) (stale : List String)
     | .enum => { outputs := outs }     -- enum skips the name with a warning and generates the others
   | .notInFile | .restResults | .restAliasDup | .restParseFail | .exportedGetFlag | .manualBadParam | .manualTwice | .formatFail => { gen := .fatal }
   | .outputBlocked => { outputs := outs, removes := stale, writeErr := some 0 }
+  | .cleanGlobBad => { outputs := outs, removes := stale, cleanErr := some 0 }
 
 end ShootVerif.Phases
